@@ -79,7 +79,7 @@ def queriesT : List (String × String) :=
     "GetSequenceCharById", "GetSequenceIdByName", "GetSequenceNameById", "NumGaps", "NumGapsFromEnd", "NumGapsFromStart",
     "NumGapsOpenning", "SameSequence", "Sequence", "SequenceChar", "SequenceByName", "SequencesChan", "RandSubAlign",
     "NewPwAligner", "MaxScore", "NbMatches", "NbMisMatches", "NbGaps", "Seq1Ali", "Seq2Ali", "AlignmentStr"].map fun n => ("", n)) ++
-  [("seq", "LongestORF")]
+  [("seq", "LongestORF"), ("seqbag", "LongestORF")]
 
 /-- the fact table is indexed by id (what the closure relies on) and no function stores a reference into a
 package-level variable (so memory reachable from package-level tables is never an input's memory) -/
